@@ -197,7 +197,8 @@ def c06(run):
 
 
 def c01(run):
-    gens = [("Gen_Compose", "cmp", 8, 2, 6000, 150000, ["ComposeLaw", "EmitCmp"], 1000)]
+    gens = [("Gen_Compose", "cmp", 8, 2, 6000, 150000, ["ComposeLaw", "EmitCmp"], 1000),
+            ("Gen_WF", "wf", 1, 1, 1000, 1000, ["EmitWF"], 1000)]
     return query_check(
         run, gens, RESULT,
         rule=("TLC enumerates every well-typed plan W2(W1(leaf)) [op W3(leaf')] over 12 leaves (selectors with regex/negative matchers, "
@@ -251,6 +252,35 @@ def mc_volcano(run):
     log("Volcano model: %d distinct states" % st["distinct"])
 
 
+def c19(run):
+    binary = vlib.build()
+    quick = run.tier == "quick"
+    scs = vlib.generate(run, "Gen_WF", gen_cfg(run.tier, run.seed, 1, ["EmitWF"]), "wf", fam="C19")
+    scs += all_scenarios(run, 1200, 20000)
+    scs += vlib.gen_random(run, binary, "compose", 2500 if quick else 40000, "C19")
+    chunks = max(1, min(vlib.NCPU // 2, len(scs) // 400))
+    traces = vlib.replay(run, binary, "query", scs, "q", chunks=chunks)
+    viols, stats = vlib.validate(run, "QueryTrace", traces, "q")
+    st = sum_stats(stats)
+    hdr = headers_of(traces, {v[0] for v in viols})
+    attribute(run, viols, hdr, lambda clause, fam: ["C19"] if clause in WF else (["C01-C06"] if clause in RESULT else (["C13"] if clause == "ProcessDead" else [])))
+    run.cov["traces_validated_against_impl"] = st.get("sc", 0)
+    run.cov["samples"] = sample_headers(traces)
+    run.cov["scenario_stats"] = st
+    executed = st.get("sc", 0) - st.get("skipped", 0)
+    if executed <= 0:
+        raise Infra("vacuous run")
+    return vlib.finish(run, "model_checking",
+                       rule=("Every result produced for the scenarios of all query generators (TLC), of the random generator and of the dedicated "
+                             "family Gen_WF.tla (magnitudes of 1e308 overflowing to Inf, denormals, selectors whose name-dropping makes series "
+                             "collide, group_left labels that already exist or sort first, empty results) is validated by TLC against the "
+                             "well-formedness clauses of QueryTrace.tla (WFKind, WFSorted incl. pairwise distinct label sets, WFNonEmpty, "
+                             "WFTimes strictly increasing on the grid, WFLabels sorted by name without empty or repeated names, WFNoStale). "
+                             "distinct_nontrivial = scenarios executed natively whose result was checked."),
+                       assumptions=["label order is checked on byte-order ranks computed by the harness (one line of Go)"],
+                       distinct_nontrivial=executed)
+
+
 def c07(run):
     binary = vlib.build()
     mc_volcano(run)
@@ -274,4 +304,4 @@ def c07(run):
                        distinct_nontrivial=st.get("obs", 0) - st.get("keys", 0))
 
 
-RECIPES = {"C01": c01, "C07": c07, "C02": c02, "C03": c03, "C04": c04, "C05": c05, "C06": c06}
+RECIPES = {"C01": c01, "C07": c07, "C19": c19, "C02": c02, "C03": c03, "C04": c04, "C05": c05, "C06": c06}
